@@ -6,6 +6,7 @@
 //                                          per-corner attribute over 2 values (seam masks), x a covering set of option rows;
 //                                          every stride-th case (seeded) is emitted, all are run
 //   flags: handles (wrapped grids with holes: handles + boundary loops, see GenParams), nodedup (keep duplicate points: finding F10), intnormals (integer NORMAL attributes: finding F9), big
+#include <fstream>
 #include "geom.h"
 using namespace draco;
 using namespace vg;
@@ -20,6 +21,96 @@ static std::vector<int> order_by_uid(const PointCloud &pc) {
   for (int a = 0; a < pc.num_attributes(); ++a) idx[a] = a;
   std::sort(idx.begin(), idx.end(), [&](int a, int b) { return pc.attribute(a)->unique_id() < pc.attribute(b)->unique_id(); });
   return idx;
+}
+
+// ---------------------------------------------------------------------------------------------- the skip-transform view (C10)
+// d1: the ordinary decode of a stream, ds: the decode of the same stream with the transforms of the types in `skip` skipped.
+struct SkipView { std::string sk; int skip_missing = 0; bool rest_same = true; std::string rest_why; };
+static long long n_views = 0;
+template <class QuantisedFn>
+static SkipView skip_view(const Decoded &d1, const Decoded &ds, const std::vector<GeometryAttribute::Type> &skip, QuantisedFn quantised_by_encoder) {
+  ++n_views;
+  SkipView v;
+  std::string &sk = v.sk;
+  int &skip_missing = v.skip_missing;
+  bool &rest_same = v.rest_same;
+  std::string &rest_why = v.rest_why;
+  sk = "[";
+  if (d1.ok && ds.ok && !skip.empty()) {
+    const PointCloud &np_ = *d1.pc, &sp = *ds.pc;
+    rest_same = np_.num_points() == sp.num_points() && np_.num_attributes() == sp.num_attributes();
+    if (!rest_same) rest_why += "counts ";
+    if (d1.is_mesh && faces_of(*d1.mesh()) != faces_of(*ds.mesh())) { rest_same = false; rest_why += "faces "; }
+    bool first = true;
+    for (int a = 0; a < np_.num_attributes() && a < sp.num_attributes(); ++a) {
+      const PointAttribute *na = np_.attribute(a);
+      const bool skipped_type = std::find(skip.begin(), skip.end(), na->attribute_type()) != skip.end();
+      const PointAttribute *sa_pos = sp.attribute(a);
+      const bool has_transform = sa_pos->GetAttributeTransformData() != nullptr;
+      // an attribute that the ENCODER quantised (float32 with quantisation bits in effect) and whose type is skipped must come back as integers
+      // with a transform description: "it decoded to the same floats" is not what the option promises
+      if (skipped_type && !has_transform && quantised_by_encoder(na->unique_id())) ++skip_missing;
+      if (!has_transform) {
+        // Attribute without transform data.  If its type is not skipped it must be identical in both decodes.  If its type IS skipped and it
+        // is an integer attribute, the decoder by design hands out its portable (int32) form: same unique id, same components, numerically
+        // equal values (there is no transform to describe).
+        bool same = na->unique_id() == sa_pos->unique_id() && na->num_components() == sa_pos->num_components();
+        if (!skipped_type) same = same && na->data_type() == sa_pos->data_type();
+        for (PointIndex p(0); p < np_.num_points() && same; ++p) {
+          if (na->data_type() == sa_pos->data_type()) same = raw_key(na, p) == raw_key(sa_pos, p);
+          else {
+            int64_t x[8] = {0}, y[8] = {0};
+            const int ncmp = std::min<int>(8, na->num_components());
+            na->ConvertValue<int64_t>(na->mapped_index(p), ncmp, x);
+            sa_pos->ConvertValue<int64_t>(sa_pos->mapped_index(p), ncmp, y);
+            for (int c = 0; c < ncmp; ++c) same = same && x[c] == y[c];
+          }
+        }
+        if (!same) { rest_same = false; rest_why += "att" + std::to_string(a) + " "; }
+      }
+      if (!has_transform) continue;
+      const PointAttribute *sa = find_by_uid(sp, na->unique_id());
+      // (streams older than 1.3 carry no unique ids: every attribute reads 0 in the ordinary decode as well -- there the attribute at the same
+      // position with the same id is the one)
+      const bool uid_found = sa != nullptr && sa_pos->unique_id() == na->unique_id() && (sa == sa_pos || find_by_uid(np_, na->unique_id()) != na);
+      // rebuild the original-format values from the portable ints with the DESCRIBED transform (public API)
+      std::vector<int> nids, rids;
+      bool portable = true;
+      Dict dict;
+      std::unique_ptr<PointAttribute> rebuilt(new PointAttribute());
+      const AttributeTransformData *td = sa_pos->GetAttributeTransformData();
+      bool rebuilt_ok = false;
+      if (td->transform_type() == ATTRIBUTE_QUANTIZATION_TRANSFORM) {
+        // every second case reads the description into ONE transform object that has read all earlier descriptions (other bit counts, other
+        // component counts): what it describes is the attribute at hand, not a mix with what it described before
+        static AttributeQuantizationTransform reused_t;
+        AttributeQuantizationTransform fresh_t;
+        AttributeQuantizationTransform &t = (n_views % 2) ? reused_t : fresh_t;
+        if (t.InitFromAttribute(*sa_pos)) { rebuilt->Init(na->attribute_type(), na->num_components(), DT_FLOAT32, false, sa_pos->size()); rebuilt_ok = t.InverseTransformAttribute(*sa_pos, rebuilt.get()); }
+      } else if (td->transform_type() == ATTRIBUTE_OCTAHEDRON_TRANSFORM) {
+        static AttributeOctahedronTransform reused_o;
+        AttributeOctahedronTransform fresh_o;
+        AttributeOctahedronTransform &t = (n_views % 2) ? reused_o : fresh_o;
+        if (t.InitFromAttribute(*sa_pos)) { rebuilt->Init(na->attribute_type(), 3, DT_FLOAT32, false, sa_pos->size()); rebuilt_ok = t.InverseTransformAttribute(*sa_pos, rebuilt.get()); }
+      }
+      portable = rebuilt_ok && (sa_pos->data_type() == DT_INT32 || sa_pos->data_type() == DT_UINT32);
+      for (PointIndex p(0); p < np_.num_points(); ++p) {
+        nids.push_back(dict.id(raw_key(na, p)));
+        if (rebuilt_ok) {
+          const AttributeValueIndex avi = sa_pos->mapped_index(p);
+          std::string k((size_t)rebuilt->byte_stride(), '\0');
+          rebuilt->GetValue(avi, &k[0]);
+          rids.push_back(dict.id(k));
+        }
+      }
+      if (!first) sk += ",";
+      first = false;
+      sk += "{\"uid\":" + std::to_string(na->unique_id()) + ",\"uid_found\":" + (uid_found ? "true" : "false") + ",\"portable\":" + (portable ? "true" : "false") +
+            ",\"normal\":" + jarr(nids) + ",\"rebuilt\":" + jarr(rids) + "}";
+    }
+  }
+  sk += "]";
+  return v;
 }
 
 static void run_case(const Geom &g, const Opt &o, bool emit, int big_threshold) {
@@ -68,7 +159,10 @@ static void run_case(const Geom &g, const Opt &o, bool emit, int big_threshold) 
     d1 = decode(e1.bytes.data(), e1.bytes.size());
     d2 = decode(e1.bytes.data(), e1.bytes.size());
   }
-  const int trail = 7;
+  // bytes appended behind the stream for the trailing-data decode: a few, or (every fifth case, and for the clouds that compress to less than a byte
+  // per point) more than the geometry has points and faces, so that no "declared count <= bytes left" plausibility test depends on them
+  const long long elems = (long long)in.num_points() + (g.is_mesh ? (long long)g.mesh()->num_faces() * 3 : 0);
+  const int trail = (n_cases % 5 == 0 || g.shape == "flat-cloud") && elems < 2000000 ? (int)(elems * 2 + 64) : 7;
   std::vector<char> tb = e1.bytes;
   for (int i = 0; i < trail; ++i) tb.push_back((char)(0xA5 ^ (i * 37)));
   if (e1.ok) dt = decode(tb.data(), tb.size());
@@ -190,90 +284,18 @@ static void run_case(const Geom &g, const Opt &o, bool emit, int big_threshold) 
   if (!big) out.raw("in_nd_h", "[]").b("between", false);
 
   // ---- skip-transform view (C10)
-  std::string sk = "[";
-  int skip_missing = 0;
-  bool rest_same = true;
-  std::string rest_why;
-  if (d1.ok && ds.ok && !skip.empty()) {
-    const PointCloud &np_ = *d1.pc, &sp = *ds.pc;
-    rest_same = np_.num_points() == sp.num_points() && np_.num_attributes() == sp.num_attributes();
-    if (!rest_same) rest_why += "counts ";
-    if (d1.is_mesh && faces_of(*d1.mesh()) != faces_of(*ds.mesh())) { rest_same = false; rest_why += "faces "; }
-    bool first = true;
-    for (int a = 0; a < np_.num_attributes() && a < sp.num_attributes(); ++a) {
-      const PointAttribute *na = np_.attribute(a);
-      const bool skipped_type = std::find(skip.begin(), skip.end(), na->attribute_type()) != skip.end();
-      const PointAttribute *sa_pos = sp.attribute(a);
-      const bool has_transform = sa_pos->GetAttributeTransformData() != nullptr;
-      {  // an attribute that the ENCODER quantised (float32 with quantisation bits in effect) and whose type is skipped must come back as integers
-         // with a transform description: "it decoded to the same floats" is not what the option promises
-        int ia = -1;
-        for (int k = 0; k < in.num_attributes(); ++k) if (in.attribute(k)->unique_id() == na->unique_id()) ia = k;
-        if (ia >= 0 && skipped_type && in.attribute(ia)->data_type() == DT_FLOAT32) {
-          int eff = ia;   // the type-keyed Encoder API: the first attribute of the type decides for all of them
-          if (!o.expert) for (int k = 0; k < in.num_attributes(); ++k) if (in.attribute(k)->attribute_type() == in.attribute(ia)->attribute_type()) { eff = k; break; }
-          const bool quantised = (size_t)eff < o.qbits.size() && o.qbits[eff] > 0;
-          if (quantised && !has_transform) { ++skip_missing; }
-        }
-      }
-      if (!has_transform) {
-        // Attribute without transform data.  If its type is not skipped it must be identical in both decodes.  If its type IS skipped and it
-        // is an integer attribute, the decoder by design hands out its portable (int32) form: same unique id, same components, numerically
-        // equal values (there is no transform to describe).
-        bool same = na->unique_id() == sa_pos->unique_id() && na->num_components() == sa_pos->num_components();
-        if (!skipped_type) same = same && na->data_type() == sa_pos->data_type();
-        for (PointIndex p(0); p < np_.num_points() && same; ++p) {
-          if (na->data_type() == sa_pos->data_type()) same = raw_key(na, p) == raw_key(sa_pos, p);
-          else {
-            int64_t x[8] = {0}, y[8] = {0};
-            const int ncmp = std::min<int>(8, na->num_components());
-            na->ConvertValue<int64_t>(na->mapped_index(p), ncmp, x);
-            sa_pos->ConvertValue<int64_t>(sa_pos->mapped_index(p), ncmp, y);
-            for (int c = 0; c < ncmp; ++c) same = same && x[c] == y[c];
-          }
-        }
-        if (!same) { rest_same = false; rest_why += "att" + std::to_string(a) + " "; }
-      }
-      if (!has_transform) continue;
-      const PointAttribute *sa = find_by_uid(sp, na->unique_id());
-      const bool uid_found = sa != nullptr && sa == sa_pos;
-      // rebuild the original-format values from the portable ints with the DESCRIBED transform (public API)
-      std::vector<int> nids, rids;
-      bool portable = true;
-      Dict dict;
-      std::unique_ptr<PointAttribute> rebuilt(new PointAttribute());
-      const AttributeTransformData *td = sa_pos->GetAttributeTransformData();
-      bool rebuilt_ok = false;
-      if (td->transform_type() == ATTRIBUTE_QUANTIZATION_TRANSFORM) {
-        // every second case reads the description into ONE transform object that has read all earlier descriptions (other bit counts, other
-        // component counts): what it describes is the attribute at hand, not a mix with what it described before
-        static AttributeQuantizationTransform reused_t;
-        AttributeQuantizationTransform fresh_t;
-        AttributeQuantizationTransform &t = (n_cases % 2) ? reused_t : fresh_t;
-        if (t.InitFromAttribute(*sa_pos)) { rebuilt->Init(na->attribute_type(), na->num_components(), DT_FLOAT32, false, sa_pos->size()); rebuilt_ok = t.InverseTransformAttribute(*sa_pos, rebuilt.get()); }
-      } else if (td->transform_type() == ATTRIBUTE_OCTAHEDRON_TRANSFORM) {
-        static AttributeOctahedronTransform reused_o;
-        AttributeOctahedronTransform fresh_o;
-        AttributeOctahedronTransform &t = (n_cases % 2) ? reused_o : fresh_o;
-        if (t.InitFromAttribute(*sa_pos)) { rebuilt->Init(na->attribute_type(), 3, DT_FLOAT32, false, sa_pos->size()); rebuilt_ok = t.InverseTransformAttribute(*sa_pos, rebuilt.get()); }
-      }
-      portable = rebuilt_ok && (sa_pos->data_type() == DT_INT32 || sa_pos->data_type() == DT_UINT32);
-      for (PointIndex p(0); p < np_.num_points(); ++p) {
-        nids.push_back(dict.id(raw_key(na, p)));
-        if (rebuilt_ok) {
-          const AttributeValueIndex avi = sa_pos->mapped_index(p);
-          std::string k((size_t)rebuilt->byte_stride(), '\0');
-          rebuilt->GetValue(avi, &k[0]);
-          rids.push_back(dict.id(k));
-        }
-      }
-      if (!first) sk += ",";
-      first = false;
-      sk += "{\"uid\":" + std::to_string(na->unique_id()) + ",\"uid_found\":" + (uid_found ? "true" : "false") + ",\"portable\":" + (portable ? "true" : "false") +
-            ",\"normal\":" + jarr(nids) + ",\"rebuilt\":" + jarr(rids) + "}";
-    }
-  }
-  sk += "]";
+  const SkipView sview = skip_view(d1, ds, skip, [&](uint32_t uid) {
+    int ia = -1;
+    for (int k = 0; k < in.num_attributes(); ++k) if (in.attribute(k)->unique_id() == uid) ia = k;
+    if (ia < 0 || in.attribute(ia)->data_type() != DT_FLOAT32) return false;
+    int eff = ia;   // the type-keyed Encoder API: the first attribute of the type decides for all of them
+    if (!o.expert) for (int k = 0; k < in.num_attributes(); ++k) if (in.attribute(k)->attribute_type() == in.attribute(ia)->attribute_type()) { eff = k; break; }
+    return (size_t)eff < o.qbits.size() && o.qbits[eff] > 0;
+  });
+  const std::string &sk = sview.sk;
+  const int skip_missing = sview.skip_missing;
+  const bool rest_same = sview.rest_same;
+  const std::string &rest_why = sview.rest_why;
   out.raw("skip", sk).i("skip_missing", skip_missing).b("skip_rest_same", rest_same).s("skip_rest_why", rest_why);
   out.end();
 }
@@ -475,6 +497,24 @@ static int run_sizes(uint64_t seed) {
       }
     }
   }
+  // clouds that compress to far less than one byte per point (constant / two-valued attributes)
+  for (int np : {3000, 20000}) {
+    for (int method = 0; method < 2; ++method) {
+      for (int two = 0; two < 2; ++two) {
+        Geom g;
+        g.is_mesh = false;
+        g.pc.reset(new PointCloud());
+        g.pc->set_num_points(np);
+        AttDesc p{GeometryAttribute::POSITION, DT_INT32, 3, false, true, np};
+        const int pid = add_attribute(g.pc.get(), p, np);
+        for (int i = 0; i < np; ++i) { int32_t xyz[3] = {5, two ? (i / (np / 2)) : 9, 2}; g.pc->attribute(pid)->SetAttributeValue(AttributeValueIndex(i), xyz); }
+        g.shape = "flat-cloud";
+        Opt o;
+        o.method = method; o.es = o.ds = 3 + two * 4; o.qbits.assign(1, 0);
+        run_case(g, o, true, 120);
+      }
+    }
+  }
   // highly repetitive connectivity: many faces over very few points (compresses to far less than 3 bytes per face)
   for (int nf : {50, 400, 3000}) {
     for (int method = 0; method < 2; ++method) {
@@ -497,11 +537,65 @@ static int run_sizes(uint64_t seed) {
   return 0;
 }
 
+// Frozen streams (corpus/index.ndjson: streams of this and of every earlier bitstream version) decoded ordinarily and with transforms skipped: all types
+// that carry float attributes at once, and each of them alone.  One RT record per (stream, skip set) with the fields the C10 clause reads.
+static int run_streams(const char *dir) {
+  std::ifstream idx(std::string(dir) + "/index.ndjson");
+  std::string line;
+  while (std::getline(idx, line)) {
+    const size_t a = line.find("\"file\":\"");
+    if (a == std::string::npos) continue;
+    const std::string file = line.substr(a + 8, line.find('"', a + 8) - a - 8);
+    std::ifstream f(std::string(dir) + "/" + file, std::ios::binary);
+    std::vector<char> bytes((std::istreambuf_iterator<char>(f)), std::istreambuf_iterator<char>());
+    if (bytes.size() < 11) continue;
+    Decoded d1 = decode(bytes.data(), bytes.size());
+    std::vector<GeometryAttribute::Type> types;
+    if (d1.ok)
+      for (int k = 0; k < d1.pc->num_attributes(); ++k) {
+        const PointAttribute *att = d1.pc->attribute(k);
+        if (att->data_type() == DT_FLOAT32 && std::find(types.begin(), types.end(), att->attribute_type()) == types.end()) types.push_back(att->attribute_type());
+      }
+    std::vector<std::vector<GeometryAttribute::Type>> sets;
+    if (!types.empty()) sets.push_back(types);
+    if (types.size() > 1) for (auto t : types) sets.push_back({t});
+    if (sets.empty()) sets.push_back({});
+    for (const auto &skip : sets) {
+      ++n_cases; ++n_emit;
+      Decoded ds = decode(bytes.data(), bytes.size(), skip);
+      bool cleared_same = true;
+      if (d1.ok && !skip.empty()) {
+        Decoder dc;
+        for (auto t : skip) dc.SetSkipAttributeTransform(t);
+        for (auto t : skip) dc.options()->SetAttributeBool(t, "skip_attribute_transform", false);
+        DecoderBuffer db; db.Init(bytes.data(), bytes.size());
+        uint64_t hc = 4;
+        if (d1.is_mesh) { Mesh m; if (dc.DecodeBufferToGeometry(&db, &m).ok()) hc = geom_digest(m, true); }
+        else { PointCloud p; if (dc.DecodeBufferToGeometry(&db, &p).ok()) hc = geom_digest(p, false); }
+        cleared_same = hc == geom_digest(*d1.pc, d1.is_mesh);
+      }
+      const SkipView sv = skip_view(d1, ds, skip, [](uint32_t) { return false; });
+      const int ver = ((unsigned char)bytes[5] << 8) | (unsigned char)bytes[6];
+      std::vector<int> st;
+      for (auto t : skip) st.push_back((int)t);
+      out.begin("RT").i("case", n_cases).s("gt", d1.is_mesh ? "mesh" : "pc").s("shape", "stream:" + file).s("m", bytes[8] == 1 ? (d1.is_mesh ? "eb" : "kd") : "seq")
+          .i("sub", -1).i("es", -1).i("ds", -1).b("builtin", true).i("split", 0).i("pred", -100).arr("qbits", std::vector<int>{}).b("expert", false)
+          .b("eok", true).s("err", "").i("bytes", (long long)bytes.size()).i("ver", ver).arr("skip_types", st).b("big", true)
+          .b("dok", d1.ok).s("derr", d1.err).i("dp", d1.ok ? d1.pc->num_points() : -1).i("df", d1.ok && d1.is_mesh ? d1.mesh()->num_faces() : (d1.ok ? 0 : -1))
+          .b("skipok", ds.ok).b("cleared_same", cleared_same)
+          .raw("skip", sv.sk).i("skip_missing", sv.skip_missing).b("skip_rest_same", sv.rest_same).s("skip_rest_why", sv.rest_why).end();
+    }
+  }
+  fprintf(stderr, "STATS cases=%lld emitted=%lld encfail=%lld\n", n_cases, n_emit, n_enc_fail);
+  return 0;
+}
+
 int main(int argc, char **argv) {
   bool nodedup = false, intnormals = false, big = false;
   for (int i = 1; i < argc; ++i) { if (!strcmp(argv[i], "nodedup")) nodedup = true; if (!strcmp(argv[i], "intnormals")) intnormals = true; if (!strcmp(argv[i], "big")) big = true; if (!strcmp(argv[i], "expdims")) g_expdims = true; if (!strcmp(argv[i], "handles")) g_handles = true; }
   if (argc >= 4 && !strcmp(argv[1], "random")) return run_random(strtoull(argv[2], 0, 10), atol(argv[3]), nodedup, intnormals, big);
   if (argc >= 4 && !strcmp(argv[1], "fans")) return run_fans(strtoull(argv[2], 0, 10), atol(argv[3]));
+  if (argc >= 3 && !strcmp(argv[1], "streams")) return run_streams(argv[2]);
   if (argc >= 3 && !strcmp(argv[1], "sizes")) return run_sizes(strtoull(argv[2], 0, 10));
   if (argc >= 3 && !strcmp(argv[1], "tables")) return run_tables(strtoull(argv[2], 0, 10));
   if (argc >= 5 && !strcmp(argv[1], "small")) return run_small(atoi(argv[2]), strtoull(argv[3], 0, 10), strtoull(argv[4], 0, 10));
